@@ -31,16 +31,16 @@ theorem shift_none {q : WQ} (h : q.shift = none) : q.toList = [] := by
 def absOf (control : WQ) (qs : Nat → WQ) : Abs := ⟨control.toList, fun id => (qs id).toList⟩
 
 /-- Control frames first. -/
-theorem pop_ctl_spec {control c : WQ} {qs : Nat → WQ} {f : Frame} (e : Env) (h : control.shift = some (f, c)) :
-    PopSpec e (absOf control qs) (.frame f) e (absOf c qs) := by
+theorem pop_ctl_spec {strict : Prop} {control c : WQ} {qs : Nat → WQ} {f : Frame} (e : Env) (h : control.shift = some (f, c)) :
+    PopSpec strict e (absOf control qs) (.frame f) e (absOf c qs) := by
   have := shift_some h
   exact PopSpec.ctl (a := absOf control qs) (f := f) (rest := c.toList) this
 
 /-- Serving a sendable stream queue is a `whole` or `split` step of the specification. -/
-theorem pop_stream_spec {control : WQ} {qs : Nat → WQ} (e : Env) (hctl : control.toList = []) (id : Nat)
+theorem pop_stream_spec {strict : Prop} {control : WQ} {qs : Nat → WQ} (e : Env) (hctl : control.toList = []) (id : Nat)
     (hs : sendable e (qs id) = true) :
     ∃ e' q' f, (qs id).consume e maxInt32 = (e', q', some f) ∧
-      PopSpec e (absOf control qs) (.frame f) e' (absOf control (upd qs id q')) := by
+      PopSpec strict e (absOf control qs) (.frame f) e' (absOf control (upd qs id q')) := by
   have hpos : (0 : Int) < maxInt32 := by decide
   cases hl : (qs id).toList with
   | nil =>
@@ -51,7 +51,7 @@ theorem pop_stream_spec {control : WQ} {qs : Nat → WQ} (e : Env) (hctl : contr
     · have : sendable e (qs id) = false := (sendable_false_iff e).2 (Or.inr ⟨h, rest, e', hl, h1⟩)
       rw [this] at hs; cases hs
     · refine ⟨e', q', h, h2, ?_⟩
-      have hp := PopSpec.whole (e := e) (a := absOf control qs) (id := id) hctl hl hpos h1
+      have hp := PopSpec.whole (strict := strict) (e := e) (a := absOf control qs) (id := id) hctl hl hpos h1
       have : absOf control (upd qs id q') = ⟨[], upd (absOf control qs).q id rest⟩ := by
         apply Abs.ext'
         · exact hctl
@@ -60,7 +60,7 @@ theorem pop_stream_spec {control : WQ} {qs : Nat → WQ} (e : Env) (hctl : contr
           · simp [absOf, upd, hx]
       rw [this]; exact hp
     · refine ⟨e', (qs id).setHead r, c, h2, ?_⟩
-      have hp := PopSpec.split (e := e) (a := absOf control qs) (id := id) hctl hl hpos h1
+      have hp := PopSpec.split (strict := strict) (e := e) (a := absOf control qs) (id := id) hctl hl hpos h1
       have : absOf control (upd qs id ((qs id).setHead r)) = ⟨[], upd (absOf control qs).q id (r :: rest)⟩ := by
         apply Abs.ext'
         · exact hctl
@@ -71,9 +71,9 @@ theorem pop_stream_spec {control : WQ} {qs : Nat → WQ} (e : Env) (hctl : contr
 
 /-- `Pop` may answer "nothing" when no stream queue is sendable. -/
 theorem pop_none_spec {control : WQ} {qs : Nat → WQ} (e : Env) (hctl : control.toList = [])
-    (hall : ∀ id, sendable e (qs id) = false) : PopSpec e (absOf control qs) .none e (absOf control qs) := by
+    (hall : ∀ id, sendable e (qs id) = false) : PopSpec True e (absOf control qs) .none e (absOf control qs) := by
   apply PopSpec.none hctl
-  intro id f rest hq
+  intro _ id f rest hq
   rcases (sendable_false_iff e).1 (hall id) with h | ⟨f', rest', e', h1, h2⟩
   · simp [absOf] at hq; rw [h] at hq; cases hq
   · simp [absOf] at hq; rw [hq] at h1; cases h1; exact ⟨e', h2⟩
@@ -128,7 +128,7 @@ structure RRInv (s : RR) (opn : Nat → Bool) : Prop where
 
 theorem rr_step {s : RR} {opn : Nat → Bool} {op : Op} (e : Env)
     (hi : RRInv s opn) (hwf : AbsWF (absRR s) opn) (hok : OpOK opn op) :
-    ∃ e' s' r, (Sched.rr s).step e op = (e', .rr s', r) ∧ StepSpec e (absRR s) op r e' (absRR s') ∧
+    ∃ e' s' r, (Sched.rr s).step e op = (e', .rr s', r) ∧ StepSpec True e (absRR s) op r e' (absRR s') ∧
       RRInv s' (opnOp opn op) := by
   cases op with
   | win id d =>
@@ -143,7 +143,7 @@ theorem rr_step {s : RR} {opn : Nat → Bool} {op : Op} (e : Env)
       intro h; have := (hi.mem id).1 h; rw [hok.2.1] at this; cases this
     refine ⟨e, { s with qs := upd s.qs id ({} : WQ), ring := s.ring ++ [id] }, .ok, ?_, ?_, ?_⟩
     · simp [Sched.step, RR.openStream, hnot]
-    · have h := StepSpec.other (e := e) (a := absRR s) (op := .openS id p c) (by simp)
+    · have h := StepSpec.other (strict := True) (e := e) (a := absRR s) (op := .openS id p c) (by simp)
       have hq : (s.qs id).toList = [] := hwf.closed id hok.2.1
       have : absRR { s with qs := upd s.qs id ({} : WQ), ring := s.ring ++ [id] } = (absRR s).applyOp (.openS id p c) := by
         simp only [absRR, Abs.applyOp]; exact absOf_clear_of_nil _ _ _ hq
@@ -164,7 +164,7 @@ theorem rr_step {s : RR} {opn : Nat → Bool} {op : Op} (e : Env)
     have hmem : id ∈ s.ring := (hi.mem id).2 hok
     refine ⟨e, { s with qs := upd s.qs id ({} : WQ), ring := s.ring.erase id }, .ok, ?_, ?_, ?_⟩
     · simp [Sched.step, RR.closeStream, hmem]
-    · have h := StepSpec.other (e := e) (a := absRR s) (op := .closeS id) (by simp)
+    · have h := StepSpec.other (strict := True) (e := e) (a := absRR s) (op := .closeS id) (by simp)
       have : absRR { s with qs := upd s.qs id ({} : WQ), ring := s.ring.erase id } = (absRR s).applyOp (.closeS id) := by
         simp only [absRR]; exact absOf_clear _ _ _
       rw [this]; exact h
@@ -178,7 +178,7 @@ theorem rr_step {s : RR} {opn : Nat → Bool} {op : Op} (e : Env)
   | push f =>
     by_cases hc : f.isControl = true
     · refine ⟨e, { s with control := s.control.push f }, .ok, by simp [Sched.step, RR.push, hc], ?_, ⟨by simpa [opnOp] using hi.mem, hi.nodup⟩⟩
-      have h := StepSpec.other (e := e) (a := absRR s) (op := .push f) (by simp)
+      have h := StepSpec.other (strict := True) (e := e) (a := absRR s) (op := .push f) (by simp)
       have : absRR { s with control := s.control.push f } = (absRR s).applyOp (.push f) := by
         simp only [absRR]; exact absOf_push_ctl _ _ _ hc
       rw [this]; exact h
@@ -186,7 +186,7 @@ theorem rr_step {s : RR} {opn : Nat → Bool} {op : Op} (e : Env)
       have hmem : f.streamID ∈ s.ring := (hi.mem _).2 (pushOK_stream hok hc')
       refine ⟨e, { s with qs := upd s.qs f.streamID ((s.qs f.streamID).push f) }, .ok,
         by simp [Sched.step, RR.push, hc', hmem], ?_, ⟨by simpa [opnOp] using hi.mem, hi.nodup⟩⟩
-      have h := StepSpec.other (e := e) (a := absRR s) (op := .push f) (by simp)
+      have h := StepSpec.other (strict := True) (e := e) (a := absRR s) (op := .push f) (by simp)
       have : absRR { s with qs := upd s.qs f.streamID ((s.qs f.streamID).push f) } = (absRR s).applyOp (.push f) := by
         simp only [absRR]; exact absOf_push_str _ _ _ hc'
       rw [this]; exact h
@@ -213,7 +213,7 @@ theorem rr_step {s : RR} {opn : Nat → Bool} {op : Op} (e : Env)
       | some t =>
         obtain ⟨pre, id, post⟩ := t
         obtain ⟨hring, hsend, _⟩ := splitFirst_some hsp
-        obtain ⟨e', q', f, hcons, hps⟩ := pop_stream_spec (control := s.control) e hctl id hsend
+        obtain ⟨e', q', f, hcons, hps⟩ := pop_stream_spec (strict := True) (control := s.control) e hctl id hsend
         refine ⟨e', { s with qs := upd s.qs id q', ring := post ++ pre ++ [id] }, .frame f, ?_, StepSpec.pop hps, ?_⟩
         · simp [hcons]
         · constructor
@@ -277,7 +277,7 @@ theorem firstClass_some {e : Env} {qs : Nat → WQ} {ring : Nat → List Nat} {c
 
 theorem p9_step {s : P9218} {opn : Nat → Bool} {op : Op} (e : Env)
     (hi : P9Inv s opn) (hwf : AbsWF (absP9 s) opn) (hok : OpOK opn op) :
-    ∃ e' s' r, (Sched.p9 s).step e op = (e', .p9 s', r) ∧ StepSpec e (absP9 s) op r e' (absP9 s') ∧
+    ∃ e' s' r, (Sched.p9 s).step e op = (e', .p9 s', r) ∧ StepSpec True e (absP9 s) op r e' (absP9 s') ∧
       P9Inv s' (opnOp opn op) := by
   cases op with
   | win id d =>
@@ -299,7 +299,7 @@ theorem p9_step {s : P9218} {opn : Nat → Bool} {op : Op} (e : Env)
     refine ⟨e, P9218.mk s.control (upd s.qs id ({} : WQ)) (upd s.ring c' (s.ring c' ++ [id])) (upd s.prio id (some c'))
       s.toggle (if id = s.bufId then 0 else s.bufId) s.bufClass, .ok, ?_, ?_, ?_⟩
     · simp [Sched.step, P9218.openStream, hnone, c']
-    · have h := StepSpec.other (e := e) (a := absP9 s) (op := .openS id p c) (by simp)
+    · have h := StepSpec.other (strict := True) (e := e) (a := absP9 s) (op := .openS id p c) (by simp)
       have hq : (s.qs id).toList = [] := hwf.closed id hok.2.1
       have : absP9 (P9218.mk s.control (upd s.qs id ({} : WQ)) (upd s.ring c' (s.ring c' ++ [id])) (upd s.prio id (some c'))
                  s.toggle (if id = s.bufId then 0 else s.bufId) s.bufClass)
@@ -333,7 +333,7 @@ theorem p9_step {s : P9218} {opn : Nat → Bool} {op : Op} (e : Env)
       refine ⟨e, { s with qs := upd s.qs id ({} : WQ), prio := upd s.prio id none,
                                        ring := upd s.ring c ((s.ring c).erase id) }, .ok, ?_, ?_, ?_⟩
       · simp [Sched.step, P9218.closeStream, hp]
-      · have h := StepSpec.other (e := e) (a := absP9 s) (op := .closeS id) (by simp)
+      · have h := StepSpec.other (strict := True) (e := e) (a := absP9 s) (op := .closeS id) (by simp)
         have : absP9 { s with qs := upd s.qs id ({} : WQ), prio := upd s.prio id none,
                                        ring := upd s.ring c ((s.ring c).erase id) } = (absP9 s).applyOp (.closeS id) := by
           simp only [absP9]; exact absOf_clear _ _ _
@@ -392,7 +392,7 @@ theorem p9_step {s : P9218} {opn : Nat → Bool} {op : Op} (e : Env)
     by_cases hc : f.isControl = true
     · refine ⟨e, { s with control := s.control.push f }, .ok, by simp [Sched.step, P9218.push, hc], ?_,
         ⟨by simpa [opnOp] using hi.opn, hi.cls, hi.buf⟩⟩
-      have h := StepSpec.other (e := e) (a := absP9 s) (op := .push f) (by simp)
+      have h := StepSpec.other (strict := True) (e := e) (a := absP9 s) (op := .push f) (by simp)
       have : absP9 { s with control := s.control.push f } = (absP9 s).applyOp (.push f) := by
         simp only [absP9]; exact absOf_push_ctl _ _ _ hc
       rw [this]; exact h
@@ -400,7 +400,7 @@ theorem p9_step {s : P9218} {opn : Nat → Bool} {op : Op} (e : Env)
       have hsome : (s.prio f.streamID).isSome = true := by rw [hi.opn]; exact pushOK_stream hok hc'
       refine ⟨e, { s with qs := upd s.qs f.streamID ((s.qs f.streamID).push f) }, .ok,
         by simp [Sched.step, P9218.push, hc', hsome], ?_, ⟨by simpa [opnOp] using hi.opn, hi.cls, hi.buf⟩⟩
-      have h := StepSpec.other (e := e) (a := absP9 s) (op := .push f) (by simp)
+      have h := StepSpec.other (strict := True) (e := e) (a := absP9 s) (op := .push f) (by simp)
       have : absP9 { s with qs := upd s.qs f.streamID ((s.qs f.streamID).push f) } = (absP9 s).applyOp (.push f) := by
         simp only [absP9]; exact absOf_push_str _ _ _ hc'
       rw [this]; exact h
@@ -428,7 +428,7 @@ theorem p9_step {s : P9218} {opn : Nat → Bool} {op : Op} (e : Env)
       | some t =>
         obtain ⟨c, pre, id, post⟩ := t
         obtain ⟨_, hring, hsend, _⟩ := firstClass_some hfc
-        obtain ⟨e', q', f, hcons, hps⟩ := pop_stream_spec (control := s.control) e hctl id hsend
+        obtain ⟨e', q', f, hcons, hps⟩ := pop_stream_spec (strict := True) (control := s.control) e hctl id hsend
         refine ⟨e', { s with toggle := !s.toggle, qs := upd s.qs id q',
                                          ring := upd s.ring c (if c % 2 = 1 then post ++ pre ++ [id] else id :: (post ++ pre)) },
                 .frame f, ?_, StepSpec.pop hps, ?_⟩
@@ -455,7 +455,7 @@ def RandInv (s : Rand) : Prop := ∀ id, id ∉ s.sq → (s.qs id).toList = []
 
 theorem rand_step {s : Rand} {opn : Nat → Bool} {op : Op} (e : Env)
     (hi : RandInv s) (hok : OpOK opn op) :
-    ∃ e' s' r, (Sched.rnd s).step e op = (e', .rnd s', r) ∧ StepSpec e (absRand s) op r e' (absRand s') ∧
+    ∃ e' s' r, (Sched.rnd s).step e op = (e', .rnd s', r) ∧ StepSpec True e (absRand s) op r e' (absRand s') ∧
       RandInv s' := by
   cases op with
   | win id d =>
@@ -467,7 +467,7 @@ theorem rand_step {s : Rand} {opn : Nat → Bool} {op : Op} (e : Env)
   | closeS id =>
     by_cases hm : id ∈ s.sq
     · refine ⟨e, { s with qs := upd s.qs id ({} : WQ), sq := s.sq.erase id }, .ok, by simp [Sched.step, Rand.closeStream, hm], ?_, ?_⟩
-      · have h := StepSpec.other (e := e) (a := absRand s) (op := .closeS id) (by simp)
+      · have h := StepSpec.other (strict := True) (e := e) (a := absRand s) (op := .closeS id) (by simp)
         have : absRand { s with qs := upd s.qs id ({} : WQ), sq := s.sq.erase id } = (absRand s).applyOp (.closeS id) := by
           simp only [absRand]; exact absOf_clear _ _ _
         rw [this]; exact h
@@ -478,7 +478,7 @@ theorem rand_step {s : Rand} {opn : Nat → Bool} {op : Op} (e : Env)
           apply hi x
           intro hmem; exact hx ((List.mem_erase_of_ne hxi).2 hmem)
     · refine ⟨e, s, .ok, by simp [Sched.step, Rand.closeStream, hm], ?_, hi⟩
-      have h := StepSpec.other (e := e) (a := absRand s) (op := .closeS id) (by simp)
+      have h := StepSpec.other (strict := True) (e := e) (a := absRand s) (op := .closeS id) (by simp)
       have : absRand s = (absRand s).applyOp (.closeS id) := by
         have h1 := absOf_clear s.zero s.qs id
         have h2 := absOf_clear_of_nil s.zero s.qs id (hi id hm)
@@ -487,7 +487,7 @@ theorem rand_step {s : Rand} {opn : Nat → Bool} {op : Op} (e : Env)
   | push f =>
     by_cases hc : f.isControl = true
     · refine ⟨e, { s with zero := s.zero.push f }, .ok, by simp [Sched.step, Rand.push, hc], ?_, hi⟩
-      have h := StepSpec.other (e := e) (a := absRand s) (op := .push f) (by simp)
+      have h := StepSpec.other (strict := True) (e := e) (a := absRand s) (op := .push f) (by simp)
       have : absRand { s with zero := s.zero.push f } = (absRand s).applyOp (.push f) := by
         simp only [absRand]; exact absOf_push_ctl _ _ _ hc
       rw [this]; exact h
@@ -495,7 +495,7 @@ theorem rand_step {s : Rand} {opn : Nat → Bool} {op : Op} (e : Env)
       by_cases hm : f.streamID ∈ s.sq
       · refine ⟨e, { s with qs := upd s.qs f.streamID ((s.qs f.streamID).push f) }, .ok,
           by simp [Sched.step, Rand.push, hc', hm], ?_, ?_⟩
-        · have h := StepSpec.other (e := e) (a := absRand s) (op := .push f) (by simp)
+        · have h := StepSpec.other (strict := True) (e := e) (a := absRand s) (op := .push f) (by simp)
           have : absRand { s with qs := upd s.qs f.streamID ((s.qs f.streamID).push f) } = (absRand s).applyOp (.push f) := by
             simp only [absRand]; exact absOf_push_str _ _ _ hc'
           rw [this]; exact h
@@ -504,7 +504,7 @@ theorem rand_step {s : Rand} {opn : Nat → Bool} {op : Op} (e : Env)
           simp only [upd, hxi, if_false]; exact hi x hx
       · refine ⟨e, { s with qs := upd s.qs f.streamID (WQ.push {} f), sq := f.streamID :: s.sq }, .ok,
           by simp [Sched.step, Rand.push, hc', hm], ?_, ?_⟩
-        · have h := StepSpec.other (e := e) (a := absRand s) (op := .push f) (by simp)
+        · have h := StepSpec.other (strict := True) (e := e) (a := absRand s) (op := .push f) (by simp)
           have : absRand { s with qs := upd s.qs f.streamID (WQ.push {} f), sq := f.streamID :: s.sq }
               = (absRand s).applyOp (.push f) := by
             simp only [absRand, Abs.applyOp, hc', Bool.false_eq_true, if_false]
@@ -550,7 +550,7 @@ theorem rand_step {s : Rand} {opn : Nat → Bool} {op : Op} (e : Env)
             | none => rfl
             | some _ => simp at hsend
           | true =>
-            obtain ⟨e', q', f, hcons, hps⟩ := pop_stream_spec (control := s.zero) e hctl id hsend
+            obtain ⟨e', q', f, hcons, hps⟩ := pop_stream_spec (strict := True) (control := s.zero) e hctl id hsend
             by_cases hemp : q'.isEmpty = true
             · refine ⟨e', { s with qs := upd s.qs id ({} : WQ), sq := s.sq.erase id }, .frame f, by simp [hm, hcons, hemp],
                 StepSpec.pop ?_, ?_⟩
